@@ -492,7 +492,7 @@ func genJSONFor(r *rand.Rand, t *tdesc, sb *strings.Builder, depth int) {
 	case "struct":
 		sb.WriteByte('{')
 		first := true
-		for _, f := range t.Fields {
+		for _, f := range flatFields(t) {
 			if r.IntN(3) == 0 {
 				continue // missing member
 			}
@@ -527,6 +527,23 @@ func genJSONFor(r *rand.Rand, t *tdesc, sb *strings.Builder, depth int) {
 			sb.WriteString(strconv.Itoa(r.IntN(256) - 128))
 		}
 	}
+}
+
+// flatFields lists the fields with those of embedded structs (no name in the tag) inlined.
+func flatFields(t *tdesc) []fdesc {
+	var out []fdesc
+	for _, f := range t.Fields {
+		ft := f.T
+		if ft != nil && ft.K == "ptr" {
+			ft = ft.Elem
+		}
+		if f.Embedded && ft != nil && ft.K == "struct" && jsonNameOf(f) == f.Go {
+			out = append(out, flatFields(ft)...)
+			continue
+		}
+		out = append(out, f)
+	}
+	return out
 }
 
 // jsonNameOf is the member name the field is marshaled under (tag name or Go name).
